@@ -164,6 +164,20 @@ def histories(ctx, k):
                     d += "\n" + ctx.rng.choice(USES)
             elif r < 0.85:
                 d = ctx.rng.choice(USES)
+            elif r < 0.89:
+                # the same set of definitions in another ORDER (and, half of the time, other data): whatever is remembered under the *set*
+                # of keys shows here -- prefix-related abbreviation keys, duplicate reference labels, footnote keys
+                keys = ctx.rng.choice([["HTML", "HTML5"], ["W3", "W3C", "W"], ["a b", "a"], ["CSS", "CS"]])
+                ks = list(keys); ctx.rng.shuffle(ks)
+                tag = ctx.rng.choice(["one", "two"])
+                kind = ctx.rng.choice(["abbr", "abbr", "ref", "fn"])
+                body = " ".join(keys[::-1]) + " and " + keys[-1] + keys[0]
+                if kind == "abbr":
+                    d = "\n".join("*[%s]: %s %s" % (k, k.lower(), tag) for k in ks) + "\n\nuse " + body + " " + "".join(keys)
+                elif kind == "ref":
+                    d = "\n".join("[%s]: /%s-%s" % (k, k.replace(" ", "_"), tag) for k in ks) + "\n\nuse " + " ".join("[%s]" % k for k in keys)
+                else:
+                    d = "use " + " ".join("[^%s]" % k.replace(" ", "") for k in keys) + "\n\n" + "\n".join("[^%s]: note %s %s" % (k.replace(" ", ""), k, tag) for k in ks)
             elif r < 0.93:
                 d = gen.md_doc(ctx.rng, 5)
             elif r < 0.97 and h:
